@@ -87,6 +87,7 @@ class Interp:
         self.stats = {"stmts": 0, "calls": 0}
         self.fresh = itertools.count()
         self._feas_cache = {}
+        self.name_overrides = {}            # {name: object} consulted before module globals and applied to `from x import name` (contract stubs of dependencies)
         self.auto_stub = None               # optional callable(fn, args, kwargs) -> value for repository callees without an explicit contract stub
 
     # =========================================================================================== API
@@ -321,7 +322,7 @@ class Interp:
         pkg = fr.glob.get("__package__")
         mod = importlib.import_module(("." * st.level) + (st.module or ""), pkg) if st.level else importlib.import_module(st.module)
         for a in st.names:
-            fr.env[a.asname or a.name] = getattr(mod, a.name)
+            fr.env[a.asname or a.name] = self.name_overrides.get(a.name, getattr(mod, a.name))
         return NORMAL
 
     def s_FunctionDef(self, st, fr, g):
@@ -643,6 +644,8 @@ class Interp:
         for env in fr.chain:
             if name in env:
                 return env[name]
+        if name in self.name_overrides:
+            return self.name_overrides[name]
         if name in fr.glob:
             return fr.glob[name]
         if hasattr(builtins, name):
